@@ -281,7 +281,8 @@ def gen_e2e(rng, n):
     for i in range(n):
         seed = rng.randint(1, 1 << 40)
         popt = rng.choice([0, 0, 1, 2, 2, 3, 4, 5, 6, 7])
-        prune = 1 if rng.random() < 0.25 else 0
+        x = rng.random()
+        prune = 1 if x < 0.2 else 2 if x < 0.35 else 0
         stealth = 1 if (popt in (3, 6, 7) and rng.random() < 0.7) or rng.random() < 0.1 else 0
         cases.append("%d %d %d %d" % (seed, popt, prune, stealth))
     return cases
@@ -296,7 +297,10 @@ def eval_e2e(line, out):
     d = parse_kv(out)
     premise = d["premise"] == "1"
     cls.add("popt_%d" % popt)
-    if prune: cls.add("parent_partly_pruned")
+    if prune == 1 and d["pruned"] != "-": cls.add("parent_partly_pruned(data pack)")
+    if prune == 2 and d["pruned"] != "-":
+        cls.add("parent_partly_pruned(tree pack of a sub-directory)")
+        if d.get("pruned_dir_untouched") == "1": cls.add("pruned_subtree_unchanged_on_disk")
     for e in d["edits"].split("+"): cls.add("edit:" + e)
     if not premise:
         cls.add("outside_premise(content changed, size+mtime+ctime-as-compared equal)")
@@ -321,10 +325,11 @@ def eval_e2e(line, out):
     exp = (int(d["e_unmod"]), int(d["e_changed"]), int(d["e_new"]))
     if sum(got) != int(d["nfiles"]): mism.append("summary counters do not add up: " + out[:200])
     single = popt in (0, 1, 3, 4, 5, 6)
-    if single and not prune and got != exp:
+    if single and (not prune or d["pruned"] == "-") and got != exp:
         mism.append("files unmodified/changed/new %s, expected from the on-disk metadata %s: %s" % (got, exp, out[:300]))
-    if single and prune:
-        if got[0] > exp[0] or got[1] != exp[1]:
+    if single and prune and d["pruned"] != "-":
+        # data pack gone: matching files turn 'new'; tree pack gone: the whole sub-directory is unknown to the parent
+        if got[0] > exp[0] or (got[1] != exp[1] if prune == 1 else got[1] > exp[1]):
             mism.append("pruned parent: files unmodified/changed/new %s vs %s" % (got, exp))
         if got[0] < exp[0]: cls.add("reread_because_chunks_missing")
     if got[0] > 0: cls.add("some_files_reused")
@@ -428,8 +433,8 @@ def run(ctx):
                 "arrival sorted, shuffled or repeated, directory name differing from the node, missing and surplus EndTree, index = all / 90% / 50% of the chunk ids, "
                 "options ignore_ctime x ignore_inode; non-trivial = at least one entry reused and one not; e2e case = seeded tree on disk, backup, 0-6 edits "
                 "(content with/without size change, with new or restored mtime, touch, rename, file<->dir<->symlink, retarget, add, remove), backup with parent options "
-                "(latest, explicit, two parents in both orders, ignore_ctime, ignore_inode, skip_if_unchanged), forced backup, both restored; 25% with a data pack of the "
-                "parent removed + repair_index; non-trivial = some files reused and some re-read, inside the premise; distinct by case text",
+                "(latest, explicit, two parents in both orders, ignore_ctime, ignore_inode, skip_if_unchanged), restore, forced backup, restore; 20% with a data pack of the "
+                "parent removed + repair_index, 15% with the tree pack of a sub-directory removed + repair_index; non-trivial = some files reused and some re-read, inside the premise; distinct by case text",
         "samples": samples, "distribution": {"hook_results": hist, "e2e": e2e_hist},
         "hook_events_compared": nev,
         "traces_validated_against_impl": len(lines) + len(e2e_lines),
@@ -439,7 +444,7 @@ def run(ctx):
         "oracle_violations": len(viol) + len(e2e_viol)})
 
     seen = set()
-    for what, ln, detail, mode in (viol + e2e_viol)[:50]:
+    for what, ln, detail, mode in (viol + e2e_viol):
         if what in seen: continue
         seen.add(what)
         ctx.violation(what, {"case": ln, "mode": mode, "detail": detail,
